@@ -43,7 +43,13 @@ fn build_file(rng: &mut Rng, nrec: usize, maxlen: usize, crlf: bool, final_newli
             len = 0; // a record without bases: header line only (samtools writes LINEBASES 0 / LINEWIDTH 0 for it)
         }
         let seq: Vec<u8> = (0..len).map(|i| b"ACGTacgtN"[(rng.usize(9) + i) % 9]).collect();
-        let name = format!("seq{}", r);
+        // names are arbitrary non-blank tokens; '#' and ';' must not be taken for comment markers by the .fai reader
+        let name = match rng.below(10) {
+            0 => format!("#{}", r),
+            1 => format!("s#q;{}", r),
+            2 => format!(";{}", r),
+            _ => format!("seq{}", r),
+        };
         file.extend_from_slice(format!(">{} some description {}", name, r).as_bytes());
         file.extend_from_slice(nl);
         let off = file.len();
